@@ -22,6 +22,9 @@ static bool pred_match(int kind, int arg, uint32_t oid)
     }
 }
 
+// an entry may hold an empty pointer: it is an entry all the same (it makes the holder non-empty, blocks its name, carries
+// tags, can be copied and removed by name); predicates are not asked about it
+constexpr uint8_t NULLOID = 255;
 struct Model {
     struct State {
         uint8_t oid[NNAMES];
@@ -39,7 +42,8 @@ struct Model {
     {
         uint64_t sig = 0;
         for (int i = 0; i < NNAMES; i++)
-            if (s.oid[i]) sig += 1ull << (4 * (s.oid[i] % 16));
+            if (s.oid[i] == NULLOID) sig += 1ull << 60;  // an entry holding an empty pointer
+            else if (s.oid[i]) sig += 1ull << (4 * (s.oid[i] % 16));
         return sig;
     }
     static void step(const State& s, const LinOp& o, std::vector<State>& out)
@@ -101,12 +105,12 @@ struct Model {
             case REMOVEPRED:
                 if (o.r == 0) {
                     for (int i = 0; i < NNAMES; i++)
-                        if (s.oid[i] && pred_match(static_cast<int>(o.a), static_cast<int>(o.b), s.oid[i])) return;
+                        if (s.oid[i] && s.oid[i] != NULLOID && pred_match(static_cast<int>(o.a), static_cast<int>(o.b), s.oid[i])) return;
                     out.push_back(n);
                 } else {
                     // one matching entry holding the object the predicate accepted last is gone, with its tags
                     for (int i = 0; i < NNAMES; i++) {
-                        if (s.oid[i] && s.oid[i] == o.r2 && pred_match(static_cast<int>(o.a), static_cast<int>(o.b), s.oid[i])) {
+                        if (s.oid[i] && s.oid[i] != NULLOID && s.oid[i] == o.r2 && pred_match(static_cast<int>(o.a), static_cast<int>(o.b), s.oid[i])) {
                             State m = s;
                             m.oid[i] = 0;
                             m.types[i] = 0;
@@ -144,13 +148,13 @@ struct Model {
                 return;
             }
             case FIND:
-                if (static_cast<uint8_t>(o.r) == s.oid[o.a]) out.push_back(n);
+                if (static_cast<uint8_t>(o.r) == (s.oid[o.a] == NULLOID ? 0 : s.oid[o.a])) out.push_back(n);  // an empty pointer is what find hands back for a null entry
                 return;
             case FINDPRED:
             case FINDPREDTYPE: {
                 bool any = false, ok = false;
                 for (int i = 0; i < NNAMES; i++) {
-                    if (!s.oid[i] || !pred_match(static_cast<int>(o.a), static_cast<int>(o.b), s.oid[i])) continue;
+                    if (!s.oid[i] || s.oid[i] == NULLOID || !pred_match(static_cast<int>(o.a), static_cast<int>(o.b), s.oid[i])) continue;
                     if (o.op == FINDPREDTYPE && !((s.types[i] >> o.r2) & 1)) continue;
                     any = true;
                     if (s.oid[i] == o.r) ok = true;
@@ -232,6 +236,7 @@ static void run_thread(SOH& soh, int tid, const std::vector<POp>& script, std::v
         o.b = p.b;
         uint32_t last_true = 0;
         auto pred = [&](const std::shared_ptr<Cell>& c) {
+            if (!c) return false;  // an entry holding an empty pointer
             vrf::maybe_throw(4);
             vrf::user_point();
             c->check("predicate argument");
@@ -244,14 +249,20 @@ static void run_thread(SOH& soh, int tid, const std::vector<POp>& script, std::v
         o.call = vrf::now();
         switch (p.op) {
             case ADD: {
-                auto obj = std::make_shared<Cell>();
-                obj->set_raw(static_cast<uint32_t>(p.b));
+                std::shared_ptr<Cell> obj;
+                if (p.b != NULLOID) {
+                    obj = std::make_shared<Cell>();
+                    obj->set_raw(static_cast<uint32_t>(p.b));
+                }
                 o.r = soh.addObject(NAMES[p.a], std::move(obj));
                 break;
             }
             case ADDT: {
-                auto obj = std::make_shared<Cell>();
-                obj->set_raw(static_cast<uint32_t>(p.b));
+                std::shared_ptr<Cell> obj;
+                if (p.b != NULLOID) {
+                    obj = std::make_shared<Cell>();
+                    obj->set_raw(static_cast<uint32_t>(p.b));
+                }
                 o.r2 = p.c;
                 o.r = soh.addObject(NAMES[p.a], std::move(obj), p.c);
                 break;
@@ -262,11 +273,15 @@ static void run_thread(SOH& soh, int tid, const std::vector<POp>& script, std::v
                 auto v = soh.getObjects();
                 uint64_t sig = 0;
                 for (auto& sp : v) {
+                    if (!sp) {
+                        sig += 1ull << 60;
+                        continue;
+                    }
                     sp->check("getObjects result");
                     sig += 1ull << (4 * (sp->value() % 16));
                 }
                 o.r = static_cast<int64_t>(sig);
-                if (!v.empty()) kept.push_back(v[0]);
+                if (!v.empty() && v[0]) kept.push_back(v[0]);
                 break;
             }
             case REMOVE: o.r = soh.removeObject(std::string(NAMES[p.a])); break;
@@ -335,8 +350,11 @@ int main(int argc, char** argv)
                     p.b = 0;
                     p.c = static_cast<int>(rng.below(3));
                     if (p.op == ADD || p.op == ADDT) {
-                        if (next_oid > 14) continue;
-                        p.b = next_oid++;
+                        if (rng.chance(8)) p.b = NULLOID;  // an empty pointer under this name
+                        else {
+                            if (next_oid > 14) continue;
+                            p.b = next_oid++;
+                        }
                     }
                     if (p.op == ADDTYPE) {
                         p.b = static_cast<int>(rng.below(3));
@@ -400,7 +418,7 @@ int main(int argc, char** argv)
                     for (int i = 0; i < NNAMES; i++) {
                         auto f = soh->findObject(std::string(NAMES[i]));
                         uint8_t v = f ? static_cast<uint8_t>(f->value()) : 0;
-                        if (v != cand.oid[i]) okc = false;
+                        if (v != (cand.oid[i] == NULLOID ? 0 : cand.oid[i])) okc = false;
                     }
                     if (okc) keep.push_back(cand);
                 }
